@@ -842,24 +842,20 @@ def flex_layout(context, box, bottom_space, skip_stack, containing_block, page_i
             flex_items = tuple(child for _, child in line if child.is_flex_item)
             if i:
                 cross_translate += cross_gap
+            line_translate = cross_translate
+            if extra_cross_size != 0:
+                if {'flex-end', 'end'} & set(align_content):
+                    line_translate += extra_cross_size
+                elif 'center' in align_content:
+                    line_translate += extra_cross_size / 2
+                elif 'space-around' in align_content:
+                    line_translate += extra_cross_size / len(flex_lines) / 2
+                elif 'space-evenly' in align_content:
+                    line_translate += extra_cross_size / (len(flex_lines) + 1)
             for child in flex_items:
-                current_value = getattr(child, direction) + cross_translate
-                setattr(child, direction, current_value)
+                setattr(child, direction, getattr(child, direction) + line_translate)
             if extra_cross_size == 0:
                 continue
-            for child in flex_items:
-                if {'flex-end', 'end'} & set(align_content):
-                    setattr(child, direction, current_value + extra_cross_size)
-                elif 'center' in align_content:
-                    setattr(child, direction, current_value + extra_cross_size / 2)
-                elif 'space-around' in align_content:
-                    setattr(
-                        child, direction,
-                        current_value + extra_cross_size / len(flex_lines) / 2)
-                elif 'space-evenly' in align_content:
-                    setattr(
-                        child, direction,
-                        current_value + extra_cross_size / (len(flex_lines) + 1))
             if 'space-between' in align_content:
                 cross_translate += extra_cross_size / (len(flex_lines) - 1)
             elif 'space-around' in align_content:
